@@ -5,8 +5,9 @@ ENTRY = dict(
         title="The exact sampler returns the true outcome distribution of dynamic circuits",
         prop_file="Properties/C13.v",
         corr_files=["Corr/C13Corr.v"],
-        theorems=["c13_pushforward", "c13_expectation", "c13_total", "c13_pruned_bound", "c13_support", "c13_refuses",
-                  "c13_never_crashes", "c13_sampler", "c13_qsim_instance", "c13_facts", "c13_qsim_bound"],
+        theorems=["c13_pushforward", "c13_expectation", "c13_total", "c13_pruned_bound", "c13_outcome_bound", "c13_event_bound",
+                  "c13_support", "c13_refuses", "c13_never_crashes", "c13_sampler", "c13_qsim_instance", "c13_facts",
+                  "c13_qsim_bound", "c13_qsim_outcome_bound"],
         allowed_axioms=[],
         facts=["sim_tolerance", "sim_isclose_sites", "value_error_sites"],
         harness="c13",
